@@ -1,100 +1,63 @@
-import NbioVerif.Lemmas.HttpWF
-/-! probe: C06 assembled — sequential Parse calls over any segmentation = one Parse call (model level) -/
-namespace Scan
-variable {σ ε : Type}
+import NbioVerif.Lemmas.C06Chain
+import NbioVerif.Lemmas.C08Glue
+/-! C06: HTTP/1.x parsing is independent of how the byte stream is segmented.
 
-def Good (M : Machine σ ε) (st : σ) (tok : List UInt8) : Prop := ∀ n, M.block st = some n → tok.length < n
+The generic refinement (Go-shaped index loop ≡ byte-at-a-time spec, `Scan.implParse_eq_spec`, `specFeed_append`,
+`Scan.c06_segmentation_independent`, `Http.c06_http`) is in `Lemmas/C06Core.lean`. This file states the property for the
+functions the model driver executes (`Scan.feedAllL`: a chain of `parseLC` = ReadLimit test + checked loop; messages via
+`procCalls`), so that "model run = model proved":
 
-theorem specByte_good (M : Machine σ ε) (wf : WF M) (st : σ) (tok : List UInt8) (c : UInt8)
-    (hg : Good M st tok) (s' : σ) (u : Upd) (evs : List ε) (tok' : List UInt8)
-    (h : specByte M st tok c = (.ok s' u evs, tok')) : Good M s' tok' := by
-  unfold specByte at h
-  split at h
-  · rename_i n hb
-    simp only at h
-    split at h
-    · -- block completed: tok' = []
-      have h2 := congrArg Prod.snd h
-      simp only at h2
-      subst h2
-      intro m hm; have := wf.pos _ _ hm; simpa using this
-    · rename_i hlt
-      cases h
-      intro m hm
-      rw [hb] at hm; cases hm
-      simp at hlt ⊢; omega
-  · rename_i hb
-    split at h
-    · rename_i s1 u1 evs1 hbs
-      cases h
-      intro m hm
-      have hu := wf.enter_byte _ _ _ _ _ _ m hbs hm
-      subst hu
-      have := wf.pos _ _ hm
-      simpa using this
-    · cases h
-
-theorem specFeed_good (M : Machine σ ε) (wf : WF M) :
-    ∀ (data : List UInt8) (st : σ) (tok : List UInt8) (acc : List ε), Good M st tok →
-      ∀ acc' st' tok', specFeed M st tok data acc = ⟨acc', .inl (st', tok')⟩ → Good M st' tok' := by
-  intro data
-  induction data with
-  | nil =>
-    intro st tok acc hg acc' st' tok' h
-    simp [specFeed] at h
-    obtain ⟨_, h1, h2⟩ := h
-    subst h1; subst h2; exact hg
-  | cons c cs ih =>
-    intro st tok acc hg acc' st' tok' h
-    simp only [specFeed] at h
-    split at h
-    · rename_i s1 u1 evs1 tok1 hsb
-      exact ih s1 tok1 _ (specByte_good M wf st tok c hg s1 u1 evs1 tok1 hsb) acc' st' tok' h
-    · cases h
-
-/-- feeding a list of segments one Parse call at a time -/
-def feedAll (M : Machine σ ε) : σ → List UInt8 → List (List UInt8) → List ε → Res σ ε
-  | st, cache, [], acc => ⟨acc, .inl (st, cache)⟩
-  | st, cache, seg :: segs, acc =>
-    match implParse M st cache seg acc with
-    | ⟨acc', .inl (st', cache')⟩ => feedAll M st' cache' segs acc'
-    | r => r
-
-theorem feedAll_eq_spec (M : Machine σ ε) (wf : WF M) :
-    ∀ (segs : List (List UInt8)) (st : σ) (cache : List UInt8) (acc : List ε), Good M st cache →
-      feedAll M st cache segs acc = specFeed M st cache segs.flatten acc := by
-  intro segs
-  induction segs with
-  | nil => intro st cache acc _; simp [feedAll, specFeed]
-  | cons seg segs ih =>
-    intro st cache acc hg
-    simp only [feedAll, List.flatten_cons]
-    rw [implParse_eq_spec M wf st cache seg acc hg, specFeed_append]
-    cases hres : specFeed M st cache seg acc with
-    | mk acc' fin =>
-      cases fin with
-      | inl pr =>
-        obtain ⟨st', cache'⟩ := pr
-        simp only
-        exact ih st' cache' acc' (specFeed_good M wf seg st cache acc hg acc' st' cache' hres)
-      | inr e => simp
-
-/-- C06 (model level): any segmentation of a byte stream gives the same events, error and final
-    state as a single Parse call on the whole stream. -/
-theorem c06_segmentation_independent (M : Machine σ ε) (wf : WF M) (st : σ) (segs : List (List UInt8)) :
-    feedAll M st [] segs [] = feedAll M st [] [segs.flatten] [] := by
-  have hg : Good M st [] := fun n hn => wf.pos _ _ hn
-  rw [feedAll_eq_spec M wf segs st [] [] hg, feedAll_eq_spec M wf [segs.flatten] st [] [] hg]
-  simp
-
-end Scan
-
+* `c06_driver_bridge`   the driver's `parseLC` is `parseL` (no panic outcome, same ReadLimit test)
+* `c06_http_driver`     ReadLimit disabled: any segmentation = one piece — events, error, final state and cache
+* `c06_http_driver_limit` the same with a limit, whenever neither run trips the entry test (the test is segmentation
+                        dependent by construction: it is the property's only hypothesis)
+* `c06_messages`        the messages the handler receives, delivered call by call, are the same in any segmentation
+-/
 namespace Http
 open Scan
 
-/-- C06 for the nbhttp parser model, server and client side, any body limit, any processor verdicts -/
-theorem c06_http (g : Cfg) (segs : List (List UInt8)) :
-    feedAll (machine g) (init g) [] segs [] = feedAll (machine g) (init g) [] [segs.flatten] [] :=
-  c06_segmentation_independent (machine g) (wf g) (init g) segs
+/-- the function the driver calls for every `D` line is the function the theorems are about -/
+theorem c06_driver_bridge (g : Cfg) (limit : Nat) (st : P) (cache data : Bytes) (acc : List Ev) :
+    parseLC (machine g) limit st cache data acc = parseL (machine g) limit st cache data acc :=
+  parseLC_eq (machine g) limit st cache data acc
+
+/-- C06 for the chain the driver runs, ReadLimit disabled (server and client, any body limit, any verdicts) -/
+theorem c06_http_driver (g : Cfg) (segs : List Bytes) :
+    feedAllL (machine g) 0 (init g) [] segs [] = feedAllL (machine g) 0 (init g) [] [segs.flatten] [] :=
+  feedAllL_segmentation_independent (machine g) (wf g) 0 (init g) segs (noTrip_zero _ _ _ _ _) (noTrip_zero _ _ _ _ _)
+
+/-- C06 with a ReadLimit: equal results whenever neither run hits the limit test -/
+theorem c06_http_driver_limit (g : Cfg) (limit : Nat) (segs : List Bytes)
+    (h1 : NoTrip (machine g) limit (init g) [] segs []) (h2 : NoTrip (machine g) limit (init g) [] [segs.flatten] []) :
+    feedAllL (machine g) limit (init g) [] segs [] = feedAllL (machine g) limit (init g) [] [segs.flatten] [] :=
+  feedAllL_segmentation_independent (machine g) (wf g) limit (init g) segs h1 h2
+
+/-- the messages delivered during the calls of a chain, in order -/
+def messagesOf (g : Cfg) (limit : Nat) (segs : List Bytes) : Option (List Delivered) :=
+  (procCalls g.isClient none (callEvents (machine g) limit (init g) [] segs)).map fun r => r.2.flatten
+
+/-- messages delivered call by call = the processor run over all events of the chain -/
+theorem messagesOf_eq (g : Cfg) (limit : Nat) (segs : List Bytes) :
+    messagesOf g limit segs =
+      (procRun g.isClient none (feedAllL (machine g) limit (init g) [] segs []).evs []).map (·.2) := by
+  have h := procCalls_flatten g.isClient (callEvents (machine g) limit (init g) [] segs) none
+  have he := feedAllL_evs (machine g) limit segs (init g) [] []
+  simp only [List.nil_append] at he
+  rw [he, ← h]
+  simp only [messagesOf, Option.map_map]
+  rfl
+
+/-- **C06 at message level**: the sequence of requests/responses handed to the handler — delivered `Parse` call by
+    `Parse` call by the real processors' logic — is the same for every segmentation as for one piece -/
+theorem c06_messages (g : Cfg) (segs : List Bytes) :
+    messagesOf g 0 segs = messagesOf g 0 [segs.flatten] := by
+  rw [messagesOf_eq, messagesOf_eq, c06_http_driver]
+
+/-- non-vacuity: a request cut inside its header value and inside its body -/
+example :
+    let g : Cfg := { isClient := false, maxBody := 0, urlOk := fun _ => true, protoOk := fun _ => true }
+    let segs := [str "POST /a HTTP/1.1\r\nContent-Le", str "ngth: 3\r\n\r\nab", str "c"]
+    (feedAllL (machine g) 0 (init g) [] segs []).evs.length = 7 ∧ (messagesOf g 0 segs).map List.length = some 1 := by
+  decide
 
 end Http
